@@ -83,6 +83,9 @@ Calls ==
     Call("setopt", <<>>, "l", 0, "7", <<>>),    Call("setopt", <<>>, "l", 0, "x", <<>>),
     Call("setopt", <<>>, "b", 0, "maybe", <<>>),
     Call("setcomment", <<>>, "i", 0, "note", <<>>), Call("setcomment", <<>>, "l", 0, "n2", <<>>),
+    Call("setcomment", <<>>, "i", 0, "notes", <<>>),     \* an annotation that extends the previous one
+    Call("addlist", <<>>, "l", 0, "", <<"-4">>),          \* a negative number through the variadic list calls
+    Call("rmtsec", <<>>, "t", 0, "", <<>>),               \* the empty title: a prefix of every title, equal to none
     Call("addtsec", <<>>, "t", 0, "a", <<>>),   Call("addtsec", <<>>, "t", 0, "c", <<>>),
     Call("addtsec", <<>>, "i", 0, "a", <<>>),   Call("addtsec", <<>>, "zz", 0, "a", <<>>),
     Call("addtsec", <<>>, "i", 0, "5", <<>>),   Call("addtsec", <<>>, "s", 0, "a", <<>>),
